@@ -13,7 +13,7 @@ SPEC = {
         "specification (forward simulation, linearization point = the critical section that returns); channel closed iff "
         "key added; no cross-key wake; waiters released exactly when their key is added; GetOrSet runs f at most once per "
         "key and returns a stored value. Partial: strong (single-instant) linearizability is proved for histories without "
-        "Values; whole-map Values over several shards is a sequence of per-shard snapshots (witness + known finding). "
+        "Values; whole-map Values over several shards is a sequence of per-shard snapshots: a history of the model is proved NOT strongly linearizable (C15_witness_values_not_linearizable, known finding). "
         "Not modelled: the Go memory model below sync.RWMutex/close, panics inside f, Range (facts only)."),
     "technique": "Lean 4 forward simulation + inductive invariants over an interleaving Step relation; symbolic-execution facts; differential scripts; porcupine histories with Lean-checked certificates",
     "trusted": [
